@@ -9,6 +9,7 @@ from values import *
 import interp as _interp
 from interp import Program, Interp, PathCtx, RustPanic, Unsupported, StepLimit, Infeasible
 import models, models_str, models_iter, models_coll
+import models_fmt, models_std2
 from resolve import Unresolved
 
 REPO = os.environ.get('VERIF_REPO', '/repo')
